@@ -47,6 +47,19 @@ AGG = Profile(
     p_null_fact=0.15, p_argminmax=0.25, p_nested_agg=0.3, p_clash_names=0.5)
 
 
+def AllVarNames(x):
+  out = set()
+  if isinstance(x, dict):
+    if x.get('k') == 'var':
+      out.add(x['name'])
+    for v in x.values():
+      out |= AllVarNames(v)
+  elif isinstance(x, list):
+    for v in x:
+      out |= AllVarNames(v)
+  return out
+
+
 def Weighted(rng, d):
   items = [(k, w) for k, w in d.items() if w > 0]
   t = rng.uniform(0, sum(w for _, w in items))
@@ -86,6 +99,7 @@ class Gen:
     self.preds = []
     self.counter = 0
     self.features = set()
+    self.NewRule()
 
   # -- values / literals ------------------------------------------------------
   def Const(self, t):
@@ -101,17 +115,47 @@ class Gen:
     raise ValueError(t)
 
   def Fresh(self, env, hint='x'):
-    if self.p['p_clash_names'] and self.rng.random() < self.p['p_clash_names']:
+    """A variable name new to the current scope.  Names local to an inner
+    aggregating expression / negation must not be reused by an enclosing
+    scope (they would become the same variable) but may be reused by a
+    sibling inner scope - that is the clash C02 asks for."""
+    d = self.depth
+    blocked = self.nested_names.get(d, set())
+    if (d > 0 and self.p['p_clash_names'] and
+        self.rng.random() < self.p['p_clash_names']):
       pool = ['x', 'y', 'z', 'a', 'b']
       self.rng.shuffle(pool)
       for v in pool:
-        if v not in env and v not in self.reserved:
+        if v not in env and v not in blocked:
+          self.scope_locals[d].add(v)
+          if v in self.all_inner:
+            self.features.add('clash_local_names')
+          self.all_inner.add(v)
           return v
     while True:
       self.counter += 1
       v = '%s%d' % (hint, self.counter)
-      if v not in env and v not in self.reserved:
+      if v not in env and v not in blocked:
+        if d > 0:
+          self.scope_locals[d].add(v)
         return v
+
+  def Enter(self):
+    self.depth += 1
+    self.scope_locals[self.depth] = set()
+    self.nested_names[self.depth] = set()
+
+  def Exit(self):
+    d = self.depth
+    self.nested_names.setdefault(d - 1, set()).update(
+        self.scope_locals[d] | self.nested_names[d])
+    self.depth -= 1
+
+  def NewRule(self):
+    self.depth = 0
+    self.scope_locals = {0: set()}
+    self.nested_names = {0: set()}
+    self.all_inner = set()
 
   # -- expressions -------------------------------------------------------------
   def VarsOf(self, env, t):
@@ -313,16 +357,18 @@ class Gen:
     if kind == 'neg' and self.Materialised():
       self.features.add('negation')
       sub_env = dict(env)
+      self.Enter()
       body = [self.AtomOver(r.choice(self.Materialised()), sub_env)]
       if r.random() < 0.4:
         body.append(self.AtomOver(r.choice(self.Materialised()), sub_env))
         self.features.add('neg_conj')
       if r.random() < 0.3 and [v for v in sub_env if self.Scalar(sub_env[v])]:
         body.append(Cmp(self.Cond(sub_env, 1)))
+      self.Exit()
       return [Neg(body)]
     if kind == 'aggexpr' and self.Materialised():
-      v = self.Fresh(env)
       e, t = self.AggExpr(env, depth)
+      v = self.Fresh(env)
       env[v] = t
       c = Unify(Var(v), e)
       return [c]
@@ -332,6 +378,14 @@ class Gen:
     """An aggregating expression correlated with env; returns (expr, type)."""
     r, p = self.rng, self.p
     sub_env = dict(env)
+    self.Enter()
+    try:
+      return self.AggExprInner(env, sub_env, depth)
+    finally:
+      self.Exit()
+
+  def AggExprInner(self, env, sub_env, depth):
+    r, p = self.rng, self.p
     body = [self.AtomOver(r.choice(self.Materialised()), sub_env)]
     if r.random() < 0.3:
       body.append(self.AtomOver(r.choice(self.Materialised()), sub_env))
@@ -339,11 +393,12 @@ class Gen:
       body.append(Cmp(self.Cond(sub_env, 1)))
     if depth == 0 and r.random() < p['p_nested_agg']:
       self.features.add('nested_agg')
-      v = self.Fresh(sub_env)
       e2, t2 = self.AggExpr(sub_env, depth + 1)
+      v = self.Fresh(sub_env)
       sub_env[v] = t2
       body.append(Unify(Var(v), e2))
-    corr = len([v for v in env if v in str(body)])
+    used = AllVarNames(body)
+    corr = len([v for v in env if v in used])
     self.features.add('aggexpr_corr%d' % min(corr, 2))
     t = r.choice(['n', 'n', 's'])
     if not self.VarsOf(sub_env, t):
@@ -411,6 +466,10 @@ class Gen:
           else:
             row.append(self.Const(t))
         rows.append(row)
+    if len(rows) == 1 and any(v == NULL for v in rows[0]):
+      # Excluded shape (known finding F-C02-null-fact-injection): a
+      # single-fact predicate holding a null is injected as `x == null`.
+      rows.append(rows[0])
     rules = [Rule([(f, Lit(v), '') for (f, _), v in zip(fields, row)])
              for row in rows]
     self.sigs.append(Sig(name, fields))
@@ -437,7 +496,6 @@ class Gen:
   def Idb(self):
     r, p = self.rng, self.p
     kind = Weighted(r, p['kinds'])
-    self.reserved = set()
     if kind == 'inline':
       return self.Inline()
     functional = kind in ('func', 'aggfunc')
@@ -484,6 +542,7 @@ class Gen:
     rules = []
     for _ in range(n_rules):
       env = {}
+      self.NewRule()
       body = self.Body(env)
       head = []
       for f, t in fields:
@@ -521,6 +580,7 @@ class Gen:
     nparams = r.randint(1, 2)
     params = [('col%d' % i, r.choice(['n', 'n', 's'])) for i in range(nparams)]
     env = {}
+    self.NewRule()
     head = []
     for f, t in params:
       v = self.Fresh(env, 'p')
@@ -552,7 +612,6 @@ class Gen:
 
   def Program(self):
     r, p = self.rng, self.p
-    self.reserved = set()
     for _ in range(r.randint(*p['n_edb'])):
       self.Edb()
     for _ in range(r.randint(*p['n_idb'])):
